@@ -93,6 +93,9 @@ package cookies
 //@ ensures[only-validated] ret1 == nil ==> ret2(Validate) && arg(Validate, 0) == cookie && arg(Validate, 1) == opts.Secret
 //@     && arg(Validate, 2) == opts.Expire
 //@ ensures[non-nil-on-success] ret1 == nil ==> ret0 != nil
+//@ prop C19
+//@ ensures[nonnil:csrf-carries-the-cookie-options] ret1 == nil ==> ret0.cookieOpts == opts
+//@ prop C03 C02 C09
 //@ at call decrypt assert[decrypts-the-validated-value] ret2(Validate) && arg(decrypt, 0) == ret0(Validate)
 //@ at call msgpack.Unmarshal assert[decodes-the-decrypted-value] ret1(decrypt) == nil && arg(msgpack.Unmarshal, 0) == ret0(decrypt)
 
@@ -135,6 +138,9 @@ package cookies
 //@ ensures[name-from-state] result == ite(opts.CSRFPerRequest && len(state) >= 8, opts.Name + "_" + state[0:8] + "_csrf", opts.Name + "_csrf")
 
 //@ func NewCSRF
+//@ prop C19
+//@ ensures[nonnil:csrf-carries-the-cookie-options] ret1 == nil ==> typeis(ret0, "*csrf") && as(ret0, "*csrf").cookieOpts == opts
+//@ scan[nonnil:csrf-allocated-by-these-functions] alloc-of pkg/cookies.csrf pkg/cookies.NewCSRF pkg/cookies.decodeCSRFCookie
 //@ prop C05 C03
 //@ ensures[fresh-32-byte-nonces-and-verifier] ret1 == nil ==> ret0 != nil && arg(Nonce#0, 0) == 32 && arg(Nonce#1, 0) == 32
 //@     && ret1(Nonce#0) == nil && ret1(Nonce#1) == nil
